@@ -50,7 +50,9 @@ def generate(seed, tier):
                 m = LC.gen_mine(rng, latest_bias=0.85, max_txs=2)
                 m.update({'op': 'bulk', 'peer': peer, 'clock': 0})
                 ops.append(m)
-            elif y < 0.8:
+            elif y < 0.72:
+                ops.append({'op': 'dup', 'n': rng.randrange(1000), 'peer': peer, 'route': 'bulk'})
+            elif y < 0.84:
                 ops.append({'op': 'redeliver_dropped', 'n': rng.randrange(1000), 'peer': peer, 'route': rng.choice(['relay', 'bulk'])})
             else:
                 ops.append({'op': 'forge', 'kind': rng.choice(APPLY_TIME + ['reward_plus_one', 'sig_other_key']), 'tip': -1,
@@ -287,6 +289,11 @@ def execute(script):
             if w.cm.coinstate.current_chain_hash != chain.head().id:
                 res.violate(PROP, 'C09/head-differs', 'node head is not the first-seen block of greatest height')
                 return False
+            if set(w.cm.coinstate.heads.keys()) != chain.tips():
+                # (a repeated delivery "has no effect": in particular a stored block with stored children is not a tip again)
+                res.violate(PROP, 'C09/tips-differ', 'the node reports %d tips, %d stored blocks have no stored child' % (
+                    len(w.cm.coinstate.heads), len(chain.tips())))
+                return False
             # (2) store rows
             rows = w.store_ids()
             if rows & rejected:
@@ -463,7 +470,7 @@ def execute(script):
                 if not delivered_valid:
                     continue
                 blk = delivered_valid[op.get('n', 0) % len(delivered_valid)]
-                send_block(blk, op.get('peer', 0), 'duplicate', 'free')
+                send_block(blk, op.get('peer', 0), 'duplicate', 'free', route=op.get('route', 'relay'))
                 batch[-1]['pool_before'] = pool_now
                 res.bump('probe:duplicate_delivery')
                 if not settle_and_check():
